@@ -778,6 +778,25 @@ theorem ppf_monotone (lo hi : ℚ) (pts : List (ℚ × ℚ)) (hne : pts ≠ [])
       rw [hL, hR]
       exact interpAux_mono hi _ hs (fun p hp => (h p hp).2) x y hxy
 
+/-- the interpolation stays within any interval that holds its values and its two outside values -/
+theorem interp_mem (x left right a b : ℚ) (pts : List (ℚ × ℚ)) (h : ∀ q ∈ pts, a ≤ q.2 ∧ q.2 ≤ b)
+    (hl : a ≤ left ∧ left ≤ b) (hr : a ≤ right ∧ right ≤ b) : a ≤ interp x left right pts ∧ interp x left right pts ≤ b := by
+  cases pts with
+  | nil => simpa [interp] using hr
+  | cons q t =>
+    obtain ⟨x0, f0⟩ := q
+    unfold interp
+    by_cases hx : x < x0
+    · simpa [hx] using hl
+    · simp only [hx, if_false]
+      exact interpAux_mem x right a b _ h hr
+
+/-- **the stratum cdf is a probability**: `cdf(x) = np.interp(x, betas, taus, right=1)` with levels `taus ⊆ [0, 1]` (numpy's default `left` is
+    the first level) lies in `[0, 1]` for every argument -/
+theorem cdf_in_unit_interval (x : ℚ) (t0 b0 : ℚ) (rest : List (ℚ × ℚ)) (h : ∀ q ∈ (b0, t0) :: rest, 0 ≤ q.2 ∧ q.2 ≤ 1) :
+    0 ≤ interp x t0 1 ((b0, t0) :: rest) ∧ interp x t0 1 ((b0, t0) :: rest) ≤ 1 :=
+  interp_mem x t0 1 0 1 _ h (h (b0, t0) (by simp)) ⟨by norm_num, le_rfl⟩
+
 /-- at a knot the interpolation returns the knot's value (strictly increasing knots) -/
 theorem interp_first_knot (left right x0 f0 : ℚ) (t : List (ℚ × ℚ)) : interp x0 left right ((x0, f0) :: t) = f0 := by
   simp [interp, interpAux]
